@@ -228,6 +228,10 @@ class Gen:
                 return rng.choice(vb)
             return f'({self.real(sc, 0)} {rng.choice(["<", "<=", ">", ">=", "==", "!="])} {self.real(sc, 0)})'
         k = rng.random()
+        if rng.random() < self.p.get('reduce_prob', 0):
+            red = self.reduction(sc)
+            if red:
+                return red
         if k < 0.45:
             op = rng.choice(['<', '<=', '>', '>=', '==', '!='])
             self.features.add('cmp' + op)
@@ -244,16 +248,33 @@ class Gen:
         if k < 0.93:
             self.features.add('not')
             return f'(not {self.boolean(sc, d - 1)})'
+        return self.reduction(sc) or rng.choice(['True', 'False'])
+
+    def reduction(self, sc: _Scope):
+        """any / all over a comprehension (None when there is no list)"""
+        rng = self.rng
         ls = sc.of('L')
-        if ls and self.p['comprehension']:
-            xs = rng.choice(ls)
-            w = self.fresh('w')
-            sub = _Scope(sc)
-            sub.vars[w] = 'R'
-            fn = rng.choice(['any', 'all'])
-            self.features.add(fn)
-            return f'{fn}([{self.boolean(sub, 1)} for {w} in {xs}])'
-        return rng.choice(['True', 'False'])
+        if not (ls and self.p['comprehension']):
+            return None
+        xs = rng.choice(ls)
+        w = self.fresh('w')
+        if sc.of('R') and rng.random() < self.p.get('comp_target_shadows_prob', 0):
+            # the comprehension target has the name of a live outer variable (which it must leave alone)
+            w = rng.choice(sc.of('R'))
+            self.features.add('comp_target_shadows')
+        sub = _Scope(sc)
+        sub.vars[w] = 'R'
+        fn = rng.choice(['any', 'all'])
+        self.features.add(fn)
+        if rng.random() < self.p.get('guarded_reduce_prob', 0):
+            # the element can fault (an index past the end); a short-circuit operand in front of the reduction guards it
+            ys = rng.choice(ls)
+            n = rng.choice([1, 2, 3, 5])
+            self.features.add('guarded_reduction')
+            guard = f'({n} < len({ys}))'
+            red = f'{fn}([({ys}[{n}] {rng.choice(["<", ">=", "!="])} {w}) for {w} in {xs}])'
+            return f'({guard} and {red})' if rng.random() < 0.7 else f'((not {guard}) or {red})'
+        return f'{fn}([{self.boolean(sub, 1)} for {w} in {xs}])'
 
     def listexpr(self, sc: _Scope, d: int):
         """returns (text, known length or None)"""
@@ -695,7 +716,7 @@ class Gen:
         self.emit(ind, f'{k} = 0')
         body = _Scope(sc)
         body.vars[k] = 'R'
-        extra = f' and {self.boolean(body, 1)}' if self.rng.random() < 0.3 else ''
+        extra = f' and {self.boolean(body, 1)}' if self.rng.random() < self.p.get('while_extra_cond_prob', 0.3) else ''
         self.emit(ind, f'while {k} < {n}{extra}:')
         self.loop_depth += 1
         hide = _Scope(body)
